@@ -198,8 +198,11 @@ pub fn compose_std_command<S: AsRef<OsStr>, SE: extensions::ShellExtensions>(
             // NOTE: To match bash behavior, we only include exported variables
             // that are set (i.e., have a value). This means a variable that
             // shows up in `declare -p` but has no *set* value will be omitted.
-            if v.value().is_set() {
-                cmd.env(k.as_str(), v.value().to_cow_str(context.shell).as_ref());
+            // Arrays are never passed on, exported or not: the environment cannot
+            // represent them, and bash does not pass their first element either.
+            let value = v.value();
+            if value.is_set() && !value.is_indexed_array() && !value.is_associative_array() {
+                cmd.env(k.as_str(), value.to_cow_str(context.shell).as_ref());
             }
         }
         // Set _ to the resolved command path for external commands.
